@@ -96,6 +96,9 @@ fn oracle(line: &str, out_line: &str, out: &mut Out) {
             let scale = BigUint::from(10u8).pow(f.len() as u32);
             let exact_num = (&ub * &scale + &fb) * &e18; // = n * scale when representable
             if let Some(v) = accepted {
+                if f.len() > 18 {
+                    out.oracle_fail("parse-rejects-over-precise", line, &format!("{s:?} has {} fractional digits (more than 18) but was accepted as {v}", f.len()));
+                }
                 let v = BigUint::parse_bytes(v.as_bytes(), 10).expect("dec");
                 if &v * &scale != exact_num {
                     out.oracle_fail("parse-sound", line, &format!("{s:?} accepted as {v}, which is not its value"));
@@ -162,6 +165,17 @@ fn grammar_string(rng: &mut Rng) -> String {
         return units;
     }
     let flen = *rng.pick(&[0u64, 1, 2, 9, 17, 18, 18, 19, 20, 30]);
+    if rng.chance(1, 6) {
+        // significant digits followed by a run of zeros, total length around the 18-digit limit
+        let total = *rng.pick(&[17u64, 18, 18, 19, 19, 20, 25]);
+        let sig = rng.below(total.min(4) + 1);
+        let mut frac = String::new();
+        for _ in 0..sig {
+            frac.push(char::from(b'1' + rng.below(9) as u8));
+        }
+        frac.push_str(&"0".repeat((total - sig) as usize));
+        return format!("{units}.{frac}");
+    }
     let mut frac = String::new();
     for i in 0..flen {
         let d = if rng.chance(1, 3) { 0 } else if i + 1 == flen && rng.chance(1, 2) { 0 } else { rng.below(10) };
@@ -211,7 +225,7 @@ fn main() {
                   "115792089237316195423570985008687907853269984665640564039457584007913129639935"] {
             v.push(format!("display {n}"));
         }
-        for s in ["", "0", "0.", "1.1", ".5", "0x10", "0b11", "0o7", "1_0", "0.0000000000000000001", "0.0000000000000000000",
+        for s in ["", "0", "0.", "1.", "1.000000000000000000", "1.0000000000000000000", "0.50000000000000000000", "1.1", ".5", "0x10", "0b11", "0o7", "1_0", "0.0000000000000000001", "0.0000000000000000000",
                   "115792089237316195423570985008687907853269984665640564039457.584007913129639936",
                   "115792089237316195423570985008687907853269984665640564039457.584007913129639935",
                   "115792089237316195423570985008687907853269984665640564039458", "0.a", "0.0.0", "a"] {
